@@ -145,7 +145,30 @@ func (st *SortTable) Preamble() string {
 }
 
 func typeKey(t types.Type) string {
-	return types.TypeString(t, func(p *types.Package) string { return p.Path() })
+	s := types.TypeString(t, func(p *types.Package) string { return p.Path() })
+	// function-local named types share their name with same-named types of other functions
+	if suffix := localTypeSuffix(t, 0); suffix != "" {
+		s += suffix
+	}
+	return s
+}
+
+func localTypeSuffix(t types.Type, depth int) string {
+	if depth > 3 {
+		return ""
+	}
+	switch x := t.(type) {
+	case *types.Named:
+		obj := x.Obj()
+		if obj != nil && obj.Pkg() != nil && obj.Parent() != nil && obj.Parent() != obj.Pkg().Scope() && obj.Parent() != types.Universe {
+			return fmt.Sprintf("@L%d", obj.Pos())
+		}
+	case *types.Pointer:
+		return localTypeSuffix(x.Elem(), depth+1)
+	case *types.Slice:
+		return localTypeSuffix(x.Elem(), depth+1)
+	}
+	return ""
 }
 
 // TypeID gives a stable positive id for a dynamic type (interface payload tag).
@@ -236,7 +259,7 @@ func (st *SortTable) FieldSel(sortName string, u *types.Struct, i int) string {
 // Zero value term for a Go type.
 func (st *SortTable) Zero(t types.Type) Term {
 	if _, ok := t.(*types.TypeParam); ok {
-		return "nil_iface"
+		return "(mk_iface 0 0)"
 	}
 	switch u := t.Underlying().(type) {
 	case *types.Basic:
@@ -250,9 +273,9 @@ func (st *SortTable) Zero(t types.Type) Term {
 		}
 		return "0"
 	case *types.Slice:
-		return "nil_slice"
+		return "(mk_slice 0 0 0)"
 	case *types.Interface:
-		return "nil_iface"
+		return "(mk_iface 0 0)"
 	case *types.Array:
 		return fmt.Sprintf("((as const %s) %s)", st.SortOf(t), st.Zero(u.Elem()))
 	case *types.Struct:
@@ -389,4 +412,15 @@ func sortedKeys[V any](m map[string]V) []string {
 	}
 	sort.Strings(ks)
 	return ks
+}
+
+// TypeIDNamed gives a type id for a type known only by name (unexported std types).
+func (st *SortTable) TypeIDNamed(name string) int {
+	if id, ok := st.typeIDs[name]; ok {
+		return id
+	}
+	id := len(st.typeIDs) + 1
+	st.typeIDs[name] = id
+	st.typeByID = append(st.typeByID, nil)
+	return id
 }
